@@ -18,7 +18,11 @@ def handler(c):
     try:
         if k == 'sim':
             eng = DailyBusinessDaySimulationEngine(ts(c['start']), ts(c['stop']), pre_market=c['pre'], post_market=c['post'])
-            return ['ok', [[sec(e.ts), e.event_type] for e in eng]]
+            first = [[sec(e.ts), e.event_type] for e in eng]
+            again = [[sec(e.ts), e.event_type] for e in eng]        # the same engine object, iterated a second time
+            if again != first:
+                return ['ok', first, again]
+            return ['ok', first]
         if k == 'sched':
             w = c['which']
             if w == 'weekly':
